@@ -88,7 +88,61 @@ class AmbigGen:
         body = "int y = 0; int arr[4]; %s%s%s" % (blockd, xdecl, stmt)
         text = "%sint g(int a) { return a; } int g2(int a, int b) { return b; }\nint f(%s)\n{\n %s\n return 0;\n}\n" % (filed, param or "void", body)
         a = text.index(e)
-        return {"text": text, "span": (a, a + len(e)), "want": want, "form": form, "ctx": name, "how": how, "expr": e}
+        b = a + len(e)
+        if op and not is_type:
+            a -= {"binaryrhs": len("1 + "), "unary": len("!")}.get(name, 0)      # the binary node covers what is on the left as well
+        return {"text": text, "span": (a, b), "want": want, "form": form, "ctx": name, "how": how, "expr": e}
+
+    def suffix_case(self, form, ctx, how):
+        """the same ambiguities with a SUFFIX after the name: (T[0]) - x / (T(1)) - x (a cast to an array or function type is not valid C:
+        only the variable readings are generated) and sizeof(T[2]) (both readings valid).  The pinned parser read '(a[i]) - b' as a cast."""
+        T, x = self.fresh("T"), self.fresh("x")
+        filed, param, blockd, is_type = self.declare_T(how, T)
+        name, tmpl = ctx
+        if name in ("case", "staticassert") or how in ("enumerator", "file_typedef_struct"):
+            return None
+        kind, op = form.split(":")
+        import re
+
+        def filerepl(new):
+            return re.sub(r"(^|\n)int %s;" % T, lambda m: m.group(1) + new, filed)
+
+        def arrays():
+            return (filerepl("int %s[4];" % T), param.replace("int %s" % T, "int *%s" % T), blockd.replace("int %s = 1;" % T, "int %s[4] = { 1 };" % T))
+
+        def functions():
+            return (filerepl("int %s(int a_) { return a_; }" % T), param.replace("int %s" % T, "int (*%s)(int)" % T), blockd.replace("int %s = 1;" % T, "int (*%s)(int) = g;" % T))
+        xdecl = "int %s = 1; " % x
+        if kind == "sub":
+            if is_type: return None
+            filed, param, blockd = arrays()
+            e = "(%s[0]) %s %s" % (T, op, x)
+            if op == "*": pass
+        elif kind == "call":
+            if is_type: return None
+            filed, param, blockd = functions()
+            e = "(%s(1)) %s %s" % (T, op, x)
+        else:
+            xdecl = ""
+            if is_type:
+                e = "sizeof(%s[2])" % T
+            else:
+                filed, param, blockd = arrays()
+                e = "sizeof(%s[1])" % T
+        if kind in ("sub", "call"):
+            want = {"-": "SubstractExpression", "+": "AddExpression", "*": "MultiplyExpression", "&": "BitwiseANDExpression", "&&": "LogicalANDExpression"}[op]
+        else:
+            want = "TypeNameAsTypeReference" if is_type else "ExpressionAsTypeReference"
+        k = tmpl.count("%s")
+        self.n += 1
+        stmt = tmpl % ((self.n,) + (e,) * k) if "%d" in tmpl else tmpl % ((e,) * k)
+        body = "int y = 0; int arr[4]; %s%s%s" % (blockd, xdecl, stmt)
+        text = "%sint g(int a) { return a; } int g2(int a, int b) { return b; }\nint f(%s)\n{\n %s\n return 0;\n}\n" % (filed, param or "void", body)
+        a = text.index(e)
+        b = a + len(e)
+        if want.endswith("Expression") and not is_type:
+            a -= {"binaryrhs": len("1 + "), "unary": len("!")}.get(name, 0)      # the binary node covers what is on the left as well
+        return {"text": text, "span": (a, b), "want": want, "form": form, "ctx": name, "how": how, "expr": e}
 
     def stmt_case(self, form, ctx, how, x_predeclared):
         """a statement-level ambiguity (T * x;  T (x);) in context ctx"""
@@ -158,8 +212,9 @@ class AmbigGen:
         i = text.index("{\n", text.index("int f(")) + 2
         text = pre + text[:i] + inbody + text[i:]
         a = text.index(c["expr"], text.index("int f("))
+        left_ext = c["text"].index(c["expr"], c["text"].index("int f(")) - c["span"][0]
         d = dict(c)
-        d.update(text=text, span=(a, a + len(c["expr"])), how=c["how"] + "+" + kind)
+        d.update(text=text, span=(a - left_ext, a + len(c["expr"])), how=c["how"] + "+" + kind)
         return d
 
     def all_cases(self, every=1):
@@ -177,6 +232,12 @@ class AmbigGen:
             for ctx in EXPR_CONTEXTS:
                 for how in self.HOWS:
                     c = self.expr_case(form, ctx, how)
+                    if c:
+                        out.append(c)
+        for form in ("sub:-", "sub:+", "sub:*", "sub:&", "sub:&&", "call:-", "call:*", "call:&", "sizeofsuffix:"):
+            for ctx in EXPR_CONTEXTS:
+                for how in self.HOWS:
+                    c = self.suffix_case(form, ctx, how)
                     if c:
                         out.append(c)
         for form in ("mul", "call", "callparen"):
